@@ -49,6 +49,10 @@ def fmt(x):
 EXPS = [-600, -44, -30, 20, 40, 900]      # -600 / 900: products of two differences under-/overflow (fix c6242ee)
 
 
+class ArgumentChanged(Exception):
+    """the implementation modified an argument that belongs to the caller (reported as a failure on the case)"""
+
+
 def run_impl(det, chunks, as_float=None, exp=0, container=None):
     """Run the real detector on the chunk list; return a dict of observables.
     `exp`: the samples are multiplied by 2**exp before they are fed and the reported values are divided by it again -
@@ -72,7 +76,11 @@ def run_impl(det, chunks, as_float=None, exp=0, container=None):
         elif container == "series":
             import pandas as pd
             arr = pd.Series(arr, index=[f"k{i}" for i in range(len(arr))])
+        keep = np.array(arr, dtype=float, copy=True)
         d.process(arr)
+        # a chunk is the caller's data: process() reads it (the usual caller feeds slices of ONE long array)
+        if not np.array_equal(np.asarray(arr, dtype=float), keep, equal_nan=True):
+            raise ArgumentChanged(f"process() changed the chunk it was given in place: {list(keep)[:8]} -> {list(np.asarray(arr, dtype=float))[:8]}")
     out = {
         "from": list(np.asarray(rec.values_from, dtype=float) / sc),
         "to": list(np.asarray(rec.values_to, dtype=float) / sc),
